@@ -87,6 +87,22 @@ CHECKS = {
              "reachable in <= 2 (3) operations. Generated real drivers carry the same handler configurations as @on methods that log what they "
              "saw; handler log, published messages and task counts of every step are validated by TraceDevice.tla.",
         design="6/C14", technique="TLA+ spec (Device.tla) + TLC model checking; TLC trace validation of real generated drivers with logging handlers"),
+    "C15": dict(
+        text="ClientMirror.tla's Recv is the reference interpreter of the INDI client rules (definition creates/replaces, update changes only the "
+             "state and the listed elements, deletion removes the property or the whole device, unknown targets and kind mismatches ignored). TLC "
+             "explores every stream of <= 3 (4 thorough) messages over a 2x2x3 name universe with callbacks. Seeded random streams (redefinition, "
+             "partial updates, kind mismatches, unknown targets, empty BLOB payloads, device deletion, foreign messages) are written in 64 foreign "
+             "spellings, fragmented randomly and fed through the real client connection handler into a real BaseClient; after every message the "
+             "public view must equal the interpreter's, nothing may be raised and the receive task must be alive (TraceClientMirror.tla).",
+        design="6/C15", technique="TLA+ spec (ClientMirror.tla reference interpreter) + TLC model checking; TLC trace validation of a real client fed through the real handler"),
+    "C16": dict(
+        text="Same traces with callbacks of every filter combination (device/vector/element/type each absent, matching, non-matching; plain, "
+             "coroutine, raising) registered and removed by id, by criteria and from inside a dispatch. TLC checks in the model and re-evaluates ON "
+             "THE OBSERVED EVENTS, independently of the model: ChainStep (each event's old value is the previous event's new value per element / "
+             "vector incarnation), LastIsCurrent (the last new value is what the public view shows), NoIdleEvents, ExpectedCalls (calls = matching "
+             "registered callbacks, in order) and never-after-removal; an ill-formed BLOB update closes some traces to show that a rejected update "
+             "changes nothing silently.",
+        design="6/C16", technique="TLA+ spec (ClientMirror.tla) + TLC model checking; TLC trace validation incl. contract predicates evaluated on observed events"),
     "C17": dict(
         text="WaitForEvent.tla models the wait on a discrete virtual clock (arrivals on the half grid, timers on the grid, the callback "
              "synchronous inside message processing, the waiter resuming one loop iteration later); TLC checks Outcome (first match or timeout "
